@@ -21,7 +21,7 @@ P = {
          "resource pairing on the CFG, who-may-write call-graph rule, lockset dataflow, feasibility pruning by constant-return summaries (LLVM IR)", "§4 C04"),
  "C05": ("Every bump of nextu/nextl/nextlu is dominated by its overflow test whose failing edge reaches the abort before the store; only the allocators write those counters and limits; the work-array partition carved by SetIWork/SetRWork fits the sizes WorkInit allocates (symbolic polynomial comparison).",
          "NOT decided: that the Householder/QR bound dominates the actual L (a theorem about structures; the LUSUP slot check is #if 0'd), index ranges of numerical kernels. Trusted as C01.",
-         "dominance + abort-reachability on the CFG, who-may-write rule, symbolic polynomial layout comparison (LLVM IR)", "§4 C05"),
+         "dominance + abort-reachability on the CFG, who-may-write rule, symbolic polynomial layout comparison, polynomial-inclusion bounds check of every locally allocated array incl. callee extent summaries (LLVM IR)", "§4 C05"),
  "C06": ("Zero-pivot path shape: row read guarded by a non-empty candidate list; pivotL returns column+1 exactly in the singular partition; per-thread/-supernode minimum reaches *info; both drivers reach no solve and store nothing into B/X when 0<info<=n.",
          "NOT decided: that the reported position equals the first structural rank deficiency; safety of all later reads of a rank-deficient supernode. Trusted as C01.",
          "guard/dominance analysis + partitioned constant propagation of the drivers (LLVM IR)", "§4 C06"),
@@ -51,7 +51,7 @@ P = {
          "check-before-use dataflow on allocator results, dominance of bump guards, partitioned constant propagation with typestate (LLVM IR)", "§4 C14"),
  "C15": ("For all argument-check prologues: no side effect before the checks end; -i is stored under a condition that depends on parameter i; codes ascend; on failure xerbla_ receives i and the routine returns immediately with no allocation in between.",
          "Approached only by sibling deviance: whether every documented precondition is tested. Trusted as C01.",
-         "argument-prologue analysis: control dependence + data-dependence closure per error code (LLVM IR)", "§4 C15"),
+         "argument-prologue analysis: control dependence + data-dependence closure per error code; partitioned constant propagation over legal and illegal mode values (LLVM IR)", "§4 C15"),
  "C16": ("Diagonal-preference rows of the pivot table at any threshold including 0 (diagonal found through inv_perm_c, taken iff nonzero and >= u*pivmax); symmetric-mode etree/count pairing.",
          "NOT decided: correctness, and fill <= the Cholesky prediction. Trusted as C01.",
          "guard/dominance analysis of pivotL + partitioned constant propagation of sp_colorder (LLVM IR)", "§4 C16"),
